@@ -87,15 +87,15 @@ func (env *SEnv) assumeWF(t Term, goT types.Type) {
 	if _, isStruct := goT.Underlying().(*types.Struct); isStruct {
 		return
 	}
-	// one fact per heap term: the same term denotes the same heap contents in every later state, and the
-	// bound established at its first use (the smallest allocation counter) stays valid
+	// one fact per (heap term, allocation counter): the bound is only as strong as the counter it is stated for
 	if env.u.wfSeen == nil {
 		env.u.wfSeen = map[string]bool{}
 	}
-	if env.u.wfSeen[t.S] {
+	key := t.S + "@" + env.u.comp(env.cur, "alloc").S
+	if env.u.wfSeen[key] {
 		return
 	}
-	env.u.wfSeen[t.S] = true
+	env.u.wfSeen[key] = true
 	inv := env.u.typeInv(t, goT, env.u.comp(env.cur, "alloc"))
 	if inv.S == "true" {
 		return
